@@ -23,6 +23,9 @@ Definition no_tieQ (sizes : list Z) (X : list Qc) : Prop :=
                        ~ this x - inject_Z (Qfloor (this x)) == 1 # 2)%Q) sizes X.
 Definition okQ (m : smode) (sizes : list Z) (X : list Qc) : Prop :=
   match m with Linear => fovQ sizes X | Nearest => no_tieQ sizes X end.
+(* ITK's whole buffer: continuous index within [-1/2, n-1/2) on every axis *)
+Definition bufQ (sizes : list Z) (X : list Qc) : Prop :=
+  Forall2 (fun n x => (-(1 # 2) <= this x /\ this x < inject_Z n - (1 # 2))%Q) sizes X.
 
 (* in-Coq comparison helpers for the correspondence: distance of a continuous index to the nearest
    rounding tie / buffer boundary (where float rounding may legitimately flip the result) *)
